@@ -123,7 +123,7 @@ func init() {
 				for _, e := range allEntropies {
 					for _, sh := range shapesA {
 						for _, n := range lens {
-							emit(rtCase{Space: "codec", P: Params{t, e, B, 2, 32, -1, false}, Shape: sh, Len: n, DecJobs: 1})
+							emit(rtCase{Space: "codec", P: Params{t, e, B, 2, 32, -1, false, false}, Shape: sh, Len: n, DecJobs: 1})
 						}
 					}
 				}
@@ -134,7 +134,7 @@ func init() {
 				for _, e := range pick(c, []string{"NONE", "HUFFMAN", "ANS0"}, allEntropies) {
 					for _, sh := range bigShapes {
 						for _, n := range pick(c, []int{65536 + 17}, []int{65535, 65536 + 17, 163840 + 3}) {
-							emit(rtCase{Space: "codec", P: Params{t, e, 65536, 3, 64, int64(n), false}, Shape: sh, Len: n, DecJobs: 2})
+							emit(rtCase{Space: "codec", P: Params{t, e, 65536, 3, 64, int64(n), false, false}, Shape: sh, Len: n, DecJobs: 2})
 						}
 					}
 				}
@@ -143,7 +143,7 @@ func init() {
 			for _, t := range allTransforms {
 				for _, e := range []string{"NONE", "HUFFMAN"} {
 					for _, sh := range []string{"longlit", "mixed", "runs"} {
-						emit(rtCase{Space: "codec", P: Params{t, e, 262144, 2, 32, -1, false}, Shape: sh, Len: 262144 + 50000, DecJobs: 2})
+						emit(rtCase{Space: "codec", P: Params{t, e, 262144, 2, 32, -1, false, false}, Shape: sh, Len: 262144 + 50000, DecJobs: 2})
 					}
 				}
 			}
@@ -153,7 +153,7 @@ func init() {
 				for _, t2 := range allTransforms[1:] {
 					for _, e := range pick(c, []string{"HUFFMAN"}, []string{"NONE", "HUFFMAN"}) {
 						for _, sh := range pairShapes {
-							emit(rtCase{Space: "codec", P: Params{t1 + "+" + t2, e, 4096, 2, 32, -1, false}, Shape: sh, Len: 9000, DecJobs: 3})
+							emit(rtCase{Space: "codec", P: Params{t1 + "+" + t2, e, 4096, 2, 32, -1, false, false}, Shape: sh, Len: 9000, DecJobs: 3})
 						}
 					}
 				}
@@ -169,7 +169,32 @@ func init() {
 				t, e := splitPreset(ps)
 				for _, sh := range shapeNames {
 					for _, n := range pick(c, []int{3000, 70000}, []int{17, 3000, 70000, 300000}) {
-						emit(rtCase{Space: "codec", P: Params{t, e, 65536, 2, 32, -1, false}, Shape: sh, Len: n, DecJobs: 2})
+						emit(rtCase{Space: "codec", P: Params{t, e, 65536, 2, 32, -1, false, false}, Shape: sh, Len: n, DecJobs: 2})
+					}
+				}
+			}
+			// one block > 4 MiB with a size hint: the reader then gives ALL its jobs to the single
+			// decoding task, and the inverse BWT splits its 8 chunks over that many helper goroutines
+			for _, t := range pick(c, []string{"BWT"}, []string{"BWT", "TEXT+UTF+BWT+RANK+ZRLT"}) {
+				for _, dj := range []uint{1, 2, 3, 4, 5, 6, 7, 8, 9, 12, 16} {
+					for _, ck := range pick(c, []uint{0}, []uint{0, 32}) {
+						n := 4<<20 + 4096 + 16
+						emit(rtCase{Space: "codec", P: Params{t, "NONE", 8 << 20, 1, ck, int64(n), false, false}, Shape: "text", Len: n, DecJobs: dj})
+					}
+				}
+			}
+			// two hinted blocks > 4 MiB: jobs are split over two decoding tasks (3+3, 3+2, ...)
+			for _, dj := range pick(c, []uint{5, 6}, []uint{2, 3, 5, 6, 7, 10, 14}) {
+				n := 2*(4<<20+65536) - 100
+				emit(rtCase{Space: "codec", P: Params{"BWT", "NONE", 4<<20 + 65536, 2, 0, int64(n), false, false}, Shape: "text", Len: n, DecJobs: dj})
+			}
+			// skipBlocks option: incompressible / already compressed blocks are stored raw
+			for _, cd := range [][2]string{{"NONE", "NONE"}, {"LZ", "HUFFMAN"}, {"TEXT+UTF+BWT+RANK+ZRLT", "ANS0"}} {
+				for _, sh := range []string{"zipmagic-text", "zipmagic", "random", "text", "mixed"} {
+					for _, j := range []uint{1, 2, 3, 4} {
+						for _, n := range []int{7, 1024, 5*1024 + 11} {
+							emit(rtCase{Space: "codec", P: Params{cd[0], cd[1], B, j, 32, -1, false, true}, Shape: sh, Len: n, DecJobs: 5 - j})
+						}
 					}
 				}
 			}
@@ -178,7 +203,7 @@ func init() {
 				for _, t := range []string{"BWT", "BWTS", "ROLZ", "LZ", "TEXT+UTF+BWT+RANK+ZRLT"} {
 					for _, sh := range []string{"text", "dna", "random"} {
 						n := 4<<20 + 16 + 4096
-						emit(rtCase{Space: "codec", P: Params{t, "ANS0", 8 << 20, 4, 32, int64(n), false}, Shape: sh, Len: n, DecJobs: 4})
+						emit(rtCase{Space: "codec", P: Params{t, "ANS0", 8 << 20, 4, 32, int64(n), false, false}, Shape: sh, Len: n, DecJobs: 4})
 					}
 				}
 			}
@@ -229,7 +254,7 @@ func init() {
 										default:
 											kind = "more"
 										}
-										emit(rtCase{Space: "framing", HintKind: kind, P: Params{cd[0], cd[1], B, j, ck, h, hl}, Shape: "text", Len: n, DecJobs: dj})
+										emit(rtCase{Space: "framing", HintKind: kind, P: Params{cd[0], cd[1], B, j, ck, h, hl, false}, Shape: "text", Len: n, DecJobs: dj})
 									}
 								}
 							}
